@@ -321,6 +321,38 @@ def run(prog, rep, tier):
         rep.examined(R177, k_, sample={"rule": "R11.8", "instance": k_})
     rep.floor("R17.7", 3)
 
+    # ------------------------------------------------------------ R17.9 one search per call, and the storing search only for streamed files
+    # Nothing is released *inside* a call of find_sysline_between_datetime_filters: the release pass runs
+    # in the worker between calls.  The dispatcher therefore (a) runs its search once per call - a loop
+    # that looks at message after message inside one call stores all of them - and (b) uses the
+    # sequential search, which stores every message it walks over, only where nothing else is possible
+    # (streamed files); plain files are searched by bisection (lift of C03 R3.3).
+    import c03 as _c03_17
+    R179 = rep.rule("R17.9", "the window search of the streaming stage runs once per call and bisects plain files (R3.3)")
+    fb17 = prog.body("s4lib::readers::syslinereader::SyslineReader::find_sysline_between_datetime_filters")
+    searches17 = [c for c in fb17.live_calls() if "find_sysline_at_datetime_filter" in c.d]
+    if not searches17:
+        raise CheckerError("R17.9: find_sysline_between_datetime_filters calls no datetime search")
+    loops17 = [h_ for (s_, h_) in fb17.back_edges()]
+    for c in searches17:
+        inl_ = [h_ for h_ in loops17 if c.bb in fb17.loop_blocks(h_) or c.bb == h_]
+        rep.examined(R179, "%s|%s" % (fb17.path, c.d.split("::")[-1]), sample={"search": c.d.split("::")[-1], "line": c.line, "inside_a_loop": bool(inl_)})
+        if inl_:
+            rep.violation(R179, "%s|search-in-loop" % fb17.path, "find_sysline_between_datetime_filters runs %s (line %d) inside a loop: one call can then walk over - and store - an unbounded number of messages (on a sorted log with --dt-before, "
+                          "the whole remainder of the file) before the worker gets to release anything; lines/syslines high grow with the file" % (c.d.split("::")[-1], c.line))
+    _s3_17 = _Rep7("C03", "quick", dict(rep.meta))
+    _s3_17.finish = lambda *a, **k: 0
+    try:
+        with _cl7.redirect_stdout(_io7.StringIO()):
+            _c03_17.run(prog, _s3_17, "quick")
+    except CheckerError:
+        pass    # C03 reports its own lost anchors; what it decided before is used
+    for (rid_, key_, what_, det_) in _s3_17.violations:
+        if rid_ == "R3.3":
+            rep.violation(R179, key_.split("|", 1)[1] + "|R3.3", what_)
+    for k_ in sorted(_s3_17.rules.get("R3.3", {}).get("keys", ())):
+        rep.examined(R179, "R3.3|" + k_, sample={"rule": "R3.3", "instance": k_})
+
     # ------------------------------------------------------------ R17.4 every block can be released
     # For a plain file nothing but LineReader::drop_line hands blocks to BlockReader::drop_block (the
     # look-behind drop exists only in the decoders).  drop_line releases the blocks of a line's parts
